@@ -9,6 +9,26 @@ ROOT = os.path.dirname(os.path.dirname(os.path.abspath(__file__)))
 
 # id -> (level, technique, text, note, design_ref)
 CHECKS = {
+    "C09": (
+        "exploration",
+        "deterministic simulation: arrival patterns anchored to the loop step at which a slot frees; in-progress monitor at every actor entry; liveness bound in virtual time plus kernel deadlock verdict",
+        "tasks_limit 1-5 shared by 1-3 queues, 5-60 jobs with zero/equal/heavy-tailed/never-ending durations, failures with "
+        "retries, arrivals before start / in bursts while saturated / k = 0..6 loop steps after an actor exits; all three brokers. "
+        "In-progress count <= tasks_limit at every entry; every job executed within a derived virtual-time bound (deadlock = "
+        "stall); after an exit with backlog the next entry follows within the broker's resume bound.",
+        "Samples scenarios. Sensitivity shown with two hand mutants (slot leak -> stall, over-release -> limit exceeded).",
+        "DESIGN.md section 8 C09",
+    ),
+    "C11": (
+        "exploration",
+        "deterministic simulation: seeded router/worker/job configurations with overrides and shared queues, workers on separate nodes; reference resolution of (name, queue) vs marker functions that ran",
+        "1-4 routers with (name, queue) registrations from small alphabets (overrides, same name on two queues), 1-2 workers from "
+        "router subsets, 3-14 jobs matching a worker / another worker / nobody in shared queues, on all three brokers; then an "
+        "owning worker for the leftovers. Checks worker.actors vs the right-biased union, which function ran for which id, "
+        "foreign jobs untouched and still waiting, leftovers executed exactly once by their owner, own jobs not blocked.",
+        "Samples configurations. 'Blocked' is not judged when another running worker consumes the same queue without owning the job (periodic bouncing can starve the owner in lockstep schedules; recorded as a probe, see DESIGN).",
+        "DESIGN.md section 8 C11",
+    ),
     "C13": (
         "exploration",
         "deterministic simulation with injected result-store faults (n-th store_bucket raising; Redis -ERR reply / connection reset at a seeded step), compared against a fault-free twin run",
